@@ -35,6 +35,10 @@ def run(ctx):
         c = cs[0]
         full = I.run_decode(cdc, data, asn1Spec=c.spec)
         if full[0] != 'ok' or full[2]:
+            ctx.stats['skipped: the complete encoding does not decode'] += 1
+            # never seen on an intact tree: e is not a valid encoding for this decoder, so its prefixes are not C06's cases
+            ctx.prop_fail('the complete encoding (an encoder output) does not decode cleanly (%s): its prefixes cannot be classified' % (full[1] if full[0] != 'ok' else 'remainder'),
+                          {'codec': cdc, 'T': T, 'data': data.hex()}, finding=codec.classify_roundtrip(T, c.v, cdc, True))
             continue
         ctx.stats['codec:' + cdc] += 1
         ks = list(range(len(data))) if len(data) <= 48 else sorted(set(ctx.rng.sample(range(len(data)), 48)))
